@@ -68,6 +68,10 @@ CHECKS = {
    text="reference-flattener monitor: vp/model/flatten.py builds the output tree the way the reference semantics prescribe (children attached to the nearest non-style-rule ancestor, bubbling of @media/@supports/unknown at-rules with a copy of the style rule inside, merged @media escaping the enclosing @media, childless copies when the ancestor already has a visible following sibling, @at-root with every with/without query incl. trimming of contiguous kept ancestors, `&` resolution parent-major with suffixes/repeats/leading combinators, nested properties joined with `-`); the ordered (context, selector, declarations) list read from grass's output by the independent CSS reader must equal the model's, for SCSS and indented prints and both styles",
    note="trees outside the flattener's fragment are inconclusive; declaration-less blocks are dropped on both sides; selector/query spelling canonicalised",
    technique="runtime monitoring: reference-model (independent flattener) oracle over outputs of generated rule trees"),
+ "C11": dict(engine="vw+vp",
+   text="DOM-truth monitor: an independent selector engine (parser, specificity, bit-parallel matcher over ALL ordered forests with <= 3 elements (thorough: 4) labelled over the features a case mentions) judges every claim: is-superselector(A,B) true => no element matched by B and not by A, reflexivity; selector-unify results match only elements matched by both arguments, null only when the conjunction of two compounds is empty; selector-parse round trip preserves the match set; selector-nest/-append equal the selectors of the equivalent nested rules; selector-extend equals (semantically) what `S{..} E{@extend T}` yields and selector-replace stays within it for negation-free selectors; any panic refutes",
+   note="opaque features for attribute selectors and argument-less pseudo-classes; exactly one type, at most one id and pseudo-element per element; soundness (not completeness) of is-superselector/unify is demanded",
+   technique="runtime monitoring: exhaustive small-model (DOM enumeration) oracle over probe-observed results + metamorphic comparison with the style-rule/@extend code paths"),
 }
 
 ALL = ["C%02d" % i for i in range(1, 21)]
